@@ -12,6 +12,7 @@ import PkVerif.Model.Attr
     deleted idx|inc|load c<id>|p<p>
     claims idx|inc|load <p> <f> <attr>|*
     order inc|load <p>
+    desc idx|inc|load <p> <attr> <T> <s>            search.Handler.Describe, owner = signer s
 -/
 namespace Pk.Drv.C07
 open Pk Pk.Attr
@@ -103,15 +104,12 @@ def corpusModeArg (s : String) : Option Mode :=
   | "load" => some .load
   | _ => none
 
-def knownId (w : World) (id : Nat) : Bool :=
-  w.claims.any (fun c => c.id == id) || w.dels.any (fun d => d.deleter == id)
-
 def tgtArg (w : World) (s : String) : Option Ref :=
   match s.toList with
   | 'p' :: r => (pnArg w (String.ofList r)).map Ref.pn
   | 'c' :: r =>
     match natArg (String.ofList r) (2 ^ 30) with
-    | some id => if knownId w id then some (.cl id) else none
+    | some id => if w.knownId id then some (.cl id) else none
     | none => none
   | _ => none
 
@@ -146,24 +144,23 @@ def step (w : World) (ws : List String) : World × String :=
     (match opt6 (natArg id (2 ^ 30)) (pnArg w p) (sArg s) (kindArg kind) (textArg attr) (textArg val),
            natArg date maxTime, natArg rk (2 ^ 48) with
      | some (id, p, s, kind, attr, val), some date, some rk =>
-       if date = 0 || attr = [] || id ≤ w.maxId then (w, "bad-op")
+       if date = 0 || attr = [] then (w, "bad-op")
        else if w.claims.any (fun c => c.pn == p && c.signer == s && decide (c.kind = kind) && c.attr == attr
             && c.val == val && c.date == date) then (w, "bad-op")
        else
-         ({ w with claims := w.claims ++ [⟨id, rk, p, s, kind, attr, val, date⟩], maxId := id }, "ok")
+         (match w.addClaim ⟨id, rk, p, s, kind, attr, val, date⟩ with
+          | some w' => (w', "ok")
+          | none => (w, "bad-op"))
      | _, _, _ => (w, "bad-op"))
   | ["delete", id, tgt, s, date, rk] =>
     (match natArg id (2 ^ 30), tgtArg w tgt, sArg s, natArg date maxTime, natArg rk (2 ^ 48) with
      | some id, some tgt, some s, some date, some rk =>
-       if date = 0 || id ≤ w.maxId then (w, "bad-op")
+       if date = 0 then (w, "bad-op")
        else if w.dels.any (fun d => decide (d.target = tgt) && d.signer == s && d.date == date) then (w, "bad-op")
        else
-         let d : Del := ⟨tgt, id, s, date, rk⟩
-         let cl : List Claim :=
-           match tgt with
-           | .pn p => [⟨id, rk, p, s, .delete, [], [], date⟩]
-           | .cl _ => []
-         ({ w with claims := w.claims ++ cl, dels := w.dels ++ [d], maxId := id }, "ok")
+         (match w.addDelete ⟨tgt, id, s, date, rk⟩ with
+          | some w' => (w', "ok")
+          | none => (w, "bad-op"))
      | _, _, _, _, _ => (w, "bad-op"))
   | ["attr", m, p, attr, t, f] =>
     (w, match modeArg m, pnArg w p, textArg attr, tArg t, fArg f with
@@ -203,6 +200,10 @@ def step (w : World) (ws : List String) : World × String :=
      | some .idx, some p, some f, some a => showIds (w.idxAppendClaims p f a)
      | some m, some p, some f, some a => showIds (w.corpusAppendClaims m p f a)
      | _, _, _, _ => "bad-op")
+  | ["desc", m, p, attr, t, s] =>
+    (w, match modeArg m, pnArg w p, textArg attr, tArg t, sArg s with
+     | some m, some p, some attr, some t, some s => showVals (w.describe m p attr t s)
+     | _, _, _, _, _ => "bad-op")
   | ["order", m, p] =>
     (w, match corpusModeArg m, pnArg w p with
      | some m, some p =>
